@@ -16,6 +16,7 @@ from fractions import Fraction
 from .. import core
 from ..core import cz, clist, cbool
 from ..runner import Entry, corpus_cases
+from . import c18_translate
 
 PRE = ("From Coq Require Import QArith.\nFrom EsVerif.Common Require Import Base.\n"
        "From EsVerif.C18 Require Import Model Spec Exec.\n")
@@ -184,7 +185,7 @@ class WMom(E):
     def cases(self, ctx, round=0):
         r = ctx.rng
         cs = []
-        for _ in range(ctx.n(260, 2600) if round == 0 else 150):
+        for _ in range(ctx.n(260, 1500) if round == 0 else 150):
             n = r.choice(sizes(ctx, big=True))
             dk, wk = r.choice(DATA_KINDS), r.choice(WEIGHT_KINDS)
             shape = r.choice(["1d", "1d", "Nd-w1", "Nd-w1", "Nd-wN"])
@@ -199,7 +200,7 @@ class WMom(E):
                     c["container"] = r.choice(["i8", "list"])
             else:
                 d = r.choice([1, 2, 2, 3, 4])
-                n = min(n, 120)
+                n = min(n, 60)
                 cols = [gen_data(r, n, r.choice(DATA_KINDS)) for _ in range(d)]
                 c["x"] = [[cols[j][i] for j in range(d)] for i in range(n)]
                 if shape == "Nd-w1":
@@ -210,6 +211,7 @@ class WMom(E):
                 imk = r.choice(["none", "none", "scalar", "array"])
                 c["im"] = None if imk == "none" else (r.gauss(0, 3) if imk == "scalar"
                                                       else [cols[j][0] + r.gauss(0, 1) for j in range(d)])
+            c["omit_defaults"] = r.random() < 0.5   # keywords equal to the source's defaults are not passed
             c["family"] = "%s/%s/%s/im=%s" % (shape, dk if shape == "1d" else "mixed", wk,
                                               "none" if c["im"] is None else ("array" if isinstance(c["im"], list) else "scalar"))
             cs.append(c)
@@ -235,7 +237,10 @@ class WMom(E):
             im = c["im"]
             if isinstance(im, list):
                 im = np.array(im, dtype="f8")
-            res = st.wmom(x, w, inputmean=im, calcerr=c["calcerr"], sdev=c["sdev"])
+            kw = {"inputmean": im, "calcerr": c["calcerr"], "sdev": c["sdev"]}
+            if c.get("omit_defaults"):
+                kw = {k: v for k, v in kw.items() if not (v is None or v is False)}
+            res = st.wmom(x, w, **kw)
             return [canon(v) for v in res]
         return guarded(f)
 
@@ -276,8 +281,8 @@ class WMedian(E):
             cs.append({"x": [3.0, 1.0, 2.0, 4.0], "w": [0.1] * 4, "family": "equal-nondyadic-weights"})
             cs.append({"x": [1.0, 1.0, 2.0, 2.0, 3.0], "w": [1.0, 2.0, 1.0, 1.0, 1.0], "family": "ties-in-data"})
             cs.append({"x": [5.0, 4.0, 3.0], "w": [0.0, 0.0, 0.0], "family": "all-zero-weights"})
-        for _ in range(ctx.n(300, 3000) if round == 0 else 150):
-            n = r.choice(sizes(ctx, big=True))
+        for _ in range(ctx.n(300, 1800) if round == 0 else 150):
+            n = r.choice(sizes(ctx, big=False))
             dk = r.choice(["ints", "ints", "gauss", "wide", "unit", "const"])
             wk = r.choice(WEIGHT_KINDS)
             cs.append({"x": gen_data(r, n, dk), "w": gen_weights(r, n, wk), "family": "%s/%s" % (dk, wk)})
@@ -312,7 +317,8 @@ def _clip_case(r, ctx, weighted=None):
         weighted = r.random() < 0.45
     w = gen_weights(r, n, r.choice(WEIGHT_KINDS)) if weighted else None
     nsig = r.choice([r.uniform(0.5, 6.0), r.uniform(0.5, 3.0), r.choice([0.5, 1.0, 1.5, 2.0, 2.5, 3.0, 4.0, 6.0])])
-    return {"x": x, "w": w, "nsig": nsig, "niter": r.randrange(0, 11),
+    return {"x": x, "w": w, "nsig": nsig, "niter": r.choice([r.randrange(0, 11), r.randrange(0, 11), 4]),
+            "omit_defaults": r.random() < 0.5,
             "family": "%s/out=%d/%s" % (dk, k, "weighted" if weighted else "unweighted")}
 
 
@@ -355,8 +361,11 @@ class SigmaClip(E):
 
         def f():
             w = None if c["w"] is None else np.array(c["w"], dtype="f8")
-            m, s, e, idx = st.sigma_clip(np.array(c["x"], dtype="f8"), weights=w, niter=c["niter"], nsig=c["nsig"],
-                                         get_err=True, get_indices=True, silent=True, extra={})
+            kw = {"niter": c["niter"], "nsig": c["nsig"]}
+            if c.get("omit_defaults"):       # the documented defaults ("defaults to 4") are not passed
+                kw = {k: v for k, v in kw.items() if v != 4}
+            m, s, e, idx = st.sigma_clip(np.array(c["x"], dtype="f8"), weights=w,
+                                         get_err=True, get_indices=True, silent=True, extra={}, **kw)
             return [float(m), float(s), float(e), [int(i) for i in idx]]
         return guarded(f)
 
@@ -726,7 +735,8 @@ def differential(ctx, entries, replay_case=None):
                 if failing:
                     break
         reported = set()
-        for c, o, v in sorted(failing, key=lambda t: len(json.dumps(t[0], default=str)))[:40]:
+        for c, o, v in sorted(failing, key=lambda t: (0 if str(t[0].get("family", "")).startswith("corpus:") else 1,
+                                                      len(json.dumps(t[0], default=str))))[:40]:
             cls = ent.classify(c, o, v)
             if cls in reported:
                 continue
@@ -761,12 +771,18 @@ def _short(v, k=12):
 
 
 TRUSTED = [
-    "Coq 8.16.1 kernel (coqc, vm_compute; no native_compute).  27 of the 29 C18 theorems are closed under the global "
+    "Coq 8.16.1 kernel (coqc, vm_compute; no native_compute).  All C18 theorems except two are closed under the global "
     "context; C18_cor_cov_roundtrip and C18_close_sqrt_real (the two statements that mention sqrt) use the standard "
     "library's real-number axioms (ClassicalDedekindReals.sig_forall_dec, sig_not_dec, functional_extensionality_dep)",
     "hand-written exact-rational model C18/Model.v of esutil/stat/util.py (wmom, wmedian, sigma_clip, interplin, get_stats, "
-    "cov2cor, cor2cov, boxcar_average); tied to the working tree by the correspondence run on every check (differential "
-    "testing, bounded by the generators)",
+    "cov2cor, cor2cov, boxcar_average); tied to the working tree (a) by the correspondence run on every check (differential "
+    "testing, bounded by the generators) and (b) by C18/Gen.v: the elementwise formulas of wmom, the loop test/update of "
+    "wmedian, the clip comparison, round count, stop tests and statistics keywords of sigma_clip, the index clamps and "
+    "formula of interplin, the defaults reached by get_stats, the entry formulas and diagonal test of cov2cor/cor2cov "
+    "and the boxcar offsets are printed from the source's AST on every run by harness/props/c18_translate.py (trusted "
+    "to print what the source says; fails closed) and theorems C18_gen_* prove the model equal to them; NOT covered by "
+    "(b): array plumbing (atleast_1d, astype, newaxis broadcasting, argsort, searchsorted, convolve, indices[w]) and "
+    "the inputmean conversion",
     "modelled, not verified: numpy broadcasting and axis-0 reductions (written column by column), sum/mean/std as exact "
     "sums, argsort as a sorting permutation, searchsorted on a sorted table as the count of smaller elements, convolve; "
     "binary64 rounding is NOT modelled: implementation floats are compared with the exact value within 1e-9 x a "
@@ -786,7 +802,26 @@ def run(ctx, replay=None):
                 "off-diagonal (cov/cor); n >= 3 and window >= 2 (boxcar).  distinct by canonical JSON.  borderline-skipped "
                 "cases (verdict -1) are counted in the distribution and are not evaluations.")
     ctx.trusted = TRUSTED
-    core.proof_step(ctx, "C18", core.ALLOW_DISCRETE + core.ALLOW_REALS)
+    # 1. formulas, comparisons, defaults and index arithmetic read out of the source of the tree under check
+    try:
+        defs, changed = c18_translate.regenerate(ctx.impl, core.COQDIR)
+        ctx.obligation("C18/Gen.v regenerated from esutil/stat/util.py (%d definitions)%s" % (
+            len(defs), " [text changed]" if changed else ""), True)
+        ctx.count("gen_definitions", len(defs))
+    except c18_translate.TranslateError as e:
+        ctx.obligation("C18/Gen.v regenerated from esutil/stat/util.py", False, str(e))
+        ctx.violation("translation of esutil/stat/util.py failed (fail closed): %s" % e,
+                      {"kind": "translation", "error": str(e),
+                       "no_longer_checks": "tie of C18/Gen.v (gen_* definitions) to esutil/stat/util.py; "
+                                           "theorems C18_gen_* are about the last text that could be translated"},
+                      found_input=False)
+    # 2. theorems (those named C18_gen_* are re-checked against the regenerated text)
+    if not core.proof_step(ctx, "C18", core.ALLOW_DISCRETE + core.ALLOW_REALS):
+        # the tie theorems no longer hold for this source text (or a proof broke): the model and the checkers
+        # (Model/Spec/Exec do not depend on Gen.v) are still used to search for a failing input
+        ok, log = core.coq_make(["theories/C18/Exec.vo"])
+        if not ok:
+            return
     only = os.environ.get("C18_ONLY")          # debugging aid: restrict to some entry points
     ents = [e for e in ENTRIES if not only or e.name in only.split(",")]
     differential(ctx, ents, replay)
